@@ -528,9 +528,16 @@ static void DecodeAdr(int ArgStartIdx, int ArgEndIdx, unsigned OpcodeLen) {
                 WrError(ErrNum_InvAddrMode);
             }
 
+            /* With a direct page other than 0, taking the short form for a forward
+               reference can move the target below the page again, and the two forms
+               then invalidate each other from pass to pass without end.  Stop
+               choosing the short form for forward references in late passes so that
+               assembly always settles: */
+
             else if (
                     (ZeroMode == 2)
-                    || ((ZeroMode == 0) && (Hi(AdrInt) == DPRValue) && (!IndFlag))) {
+                    || ((ZeroMode == 0) && (Hi(AdrInt) == DPRValue) && (!IndFlag)
+                        && !((DPRValue != 0) && mUsesForwards(Flags) && (PassNo > 8)))) {
                 if (IndFlag) {
                     WrError(ErrNum_NoIndir);
                 } else if (Hi(AdrInt) != DPRValue) {
